@@ -12,6 +12,8 @@ FIXES = [  # (commit, property, also-reverse-first)
     ("b0f06c5", "C11", []), ("acbcc3c", "C04", []), ("b94d375", "C04", []), ("beb697d", "C01", []),
     ("4392ef7", "C12", []), ("842e1af", "C19", []), ("bb88a29", "C01", []), ("6edd82b", "C01", ["bb88a29"]),
     ("80a5b27", "C01", ["bb88a29", "6edd82b"]),
+    ("67a6f3f", "C01", []), ("c55c7c6", "C01", []), ("a637c7e", "C02", []), ("482a715", "C02", []),
+    ("5f481c7", "C12", ["a637c7e"]),
     ("0ec96d8", "C16", []), ("22eeea8", "C16", []), ("086c0cc", "C05", []), ("3b58009", "C04", []),
 ]
 VERIF = os.path.dirname(os.path.dirname(os.path.abspath(__file__)))
